@@ -115,10 +115,11 @@ func vBuild(le bool, n, pages int, fault, at int) *vWAL {
 		w.valid = at
 	case vFaultTruncHdr:
 		w.valid = at
-		img = img[:WALHeaderSize+at*vFrm+10]
+		img = img[:WALHeaderSize+at*vFrm+[]int{1, 10, 23}[verifChoice("hdrkeep", 3)]]
 	case vFaultTruncData:
 		w.valid = at
-		img = img[:WALHeaderSize+at*vFrm+24+3]
+		// 0 bytes of page data kept: the image ends exactly behind the frame header
+		img = img[:WALHeaderSize+at*vFrm+24+[]int{0, 3, vPg - 1}[verifChoice("datakeep", 3)]]
 	}
 	w.img = img
 	return w
@@ -195,6 +196,21 @@ func vRun(le, full bool, n, pages, fault, at, start int) {
 			if _, berr := s.Bytes(); berr == nil {
 				pg, _, _, _ := vParse(mustBytes(s), w)
 				verifAssert("C05-truncated-frame-never-emitted", len(pg) <= lastCommit+1-start)
+			}
+			// the streaming writer (what db.CheckpointManager uses) must not do better or worse:
+			// an error, or only frames of the committed valid prefix - never a "successful"
+			// output that keeps part of the transaction whose last frame is cut off
+			if wr, werr := NewWriter(s); werr == nil {
+				var buf bytes.Buffer
+				if _, werr := wr.WriteTo(&buf); werr == nil {
+					verifReach("writer-ok-on-truncated-image")
+					pg, _, _, okw := vParse(buf.Bytes(), w)
+					most := lastCommit + 1 - start // committed frames of the valid prefix from start
+					if most < 0 {
+						most = 0
+					}
+					verifAssert("C05-writer-never-emits-beyond-valid-prefix", okw && len(pg) <= most)
+				}
 			}
 		}
 		return
